@@ -78,6 +78,7 @@ type Options struct {
 	VMergeContinue bool `json:"vmerge_continue,omitempty"` // continuation cells as <w:vMerge w:val="continue"/> instead of <w:vMerge/> (17.4.85: val defaults to continue)
 	SpanOne        bool `json:"span_one,omitempty"`        // write <w:gridSpan w:val="1"/> on unmerged cells (17.4.17: 1 is the default)
 	BulletPUA      bool `json:"bullet_pua,omitempty"`      // bullets as U+F0B7 in font Symbol (what Word writes) instead of U+2022
+	LvlOrder       int  `json:"lvl_order,omitempty"`       // w:lvl elements of an abstractNum: 0 = levels 0..8, 1 = 8..0, 2 = only the levels in use
 	NumIDShift     int  `json:"num_id_shift,omitempty"`    // numId of list i is i+1+NumIDShift (17.9.18: any positive integer)
 	OmitIlvl0      bool `json:"omit_ilvl0,omitempty"`      // list items of depth 0 omit w:ilvl (17.9.3: level 0 is assumed when absent)
 	NoTcPr         bool `json:"no_tc_pr,omitempty"`        // unmerged cells carry no w:tcPr at all (17.4.70: optional)
@@ -119,6 +120,7 @@ func GenOptions(t *rapid.T) Options {
 	o.SpanOne = rapid.IntRange(0, 3).Draw(t, "span_one") == 3
 	o.BulletPUA = rapid.Bool().Draw(t, "bullet_pua")
 	o.NumIDShift = rapid.SampledFrom([]int{0, 0, 4, 10}).Draw(t, "numid_shift")
+	o.LvlOrder = rapid.SampledFrom([]int{0, 0, 1, 2}).Draw(t, "lvl_order")
 	o.OmitIlvl0 = rapid.Bool().Draw(t, "omit_ilvl0")
 	o.NoTcPr = rapid.Bool().Draw(t, "no_tcpr")
 	o.TableStyle = rapid.Bool().Draw(t, "table_style")
@@ -862,7 +864,27 @@ func (w *writer) numbering() []byte {
 		x.Open(w.e("abstractNum"), w.a("abstractNumId"), strconv.Itoa(a))
 		x.Empty(w.e("multiLevelType"), w.a("val"), "hybridMultilevel")
 		kinds := w.d.Lists[i].Kinds
-		for lvl := 0; lvl < 9; lvl++ { // 17.9.6: up to nine levels
+		// a level is identified by its w:ilvl (17.9.6), not by its place among the w:lvl elements, and none is
+		// required: LvlOrder 1 writes the nine levels backwards, 2 only those an item (or numbered heading) uses
+		lvls := []int{0, 1, 2, 3, 4, 5, 6, 7, 8}
+		switch w.o.LvlOrder {
+		case 1:
+			lvls = []int{8, 7, 6, 5, 4, 3, 2, 1, 0}
+		case 2:
+			used := map[int]bool{}
+			for _, b := range w.d.Blocks {
+				if (b.Kind == wpmodel.BItem || (b.Kind == wpmodel.BHeading && b.Numbered)) && b.List == i {
+					used[b.Depth] = true
+				}
+			}
+			lvls = lvls[:0]
+			for l := 0; l < 9; l++ {
+				if used[l] {
+					lvls = append(lvls, l)
+				}
+			}
+		}
+		for _, lvl := range lvls { // 17.9.6: up to nine levels
 			k := kinds[lvl%len(kinds)]
 			x.Open(w.e("lvl"), w.a("ilvl"), strconv.Itoa(lvl))
 			x.Empty(w.e("start"), w.a("val"), "1")
